@@ -10,7 +10,7 @@ import (
 	"verif/h/ref"
 )
 
-var kfNaN bool
+var kfNaN, kfCC1 bool
 
 // genOff lists generator features switched off by active known findings.
 var genOff = map[string]bool{}
@@ -41,6 +41,10 @@ func initKF() {
 	if kf.Activate("KF-C01-attrgroup-redefinition", changed) {
 		genOff["noise-split-attrgroups"] = true
 	}
+	kfCC1 = kf.Activate("KF-C01-cc1", func(in string) bool {
+		o := orc.ParsePrintPreserves(in, orc.Opts{})
+		return o.V == orc.Violation && o.Class == "meaning_changed"
+	})
 	if kf.Activate("KF-C01-dwarfAddressSpace-zero", changed) {
 		genOff["di-dwarfAddressSpace-zero"] = true
 	}
